@@ -105,7 +105,7 @@ def check_nested(idx: Index, rep: Report) -> None:
             if has_table:
                 r.ok(g.fq + ":table", f"{g.loc} recursion only into symbol tables")
             else:
-                r.fail(g.fq + ":table", Finding("C29.R1", g.fq, "descent-without-table-check", f"`{unparse(c)}` recurses into `{o}` without checking that it is a symbol table; the callee then climbs to the nearest enclosing table, so `@f::@g` resolves `@g` in the *parent* table when `@f` is not a table (the shared resolver in utils/symbol_table.py returns None)", f"{TR}:{c.lineno}"))
+                r.fail(g.fq + ":table", Finding("C29.R1", g.fq, "recursion-without-table-check", f"`{unparse(c)}` recurses into `{o}` without checking that it is a symbol table; the callee then climbs to the nearest enclosing table, so `@f::@g` resolves `@g` in the *parent* table when `@f` is not a table (the shared resolver in utils/symbol_table.py returns None)", f"{TR}:{c.lineno}"))
             if has_priv:
                 r.ok(g.fq + ":private", f"{g.loc} private symbols refused through nesting")
             else:
